@@ -152,8 +152,11 @@ class Registry:
         self.units = []
 
     def crs_id(self, c):
+        import pyproj
+
+        pc = pyproj.CRS.from_user_input(c.to_wkt())
         for i, k in enumerate(self.crs):
-            if k == c:
+            if k == c and pyproj.CRS.from_user_input(k.to_wkt()).equals(pc):
                 return i
         self.crs.append(c)
         return len(self.crs) - 1
@@ -322,6 +325,25 @@ def c_optpair(p):
 
 
 # ------------------------------------------------------------------ sources and option tables
+# CRSs defined by PROJ strings: no EPSG code on either side (MODIS sinusoidal, a custom Albers, a custom LAEA)
+SINU = "+proj=sinu +lon_0=0 +x_0=0 +y_0=0 +R=6371007.181 +units=m +no_defs"
+SINU_RESPELLED = "+proj=sinu +lon_0=0 +x_0=0 +y_0=0 +R=6371007.181 +units=m +no_defs +type=crs"
+AEA_CUSTOM = "+proj=aea +lat_1=-18 +lat_2=-36 +lat_0=0 +lon_0=134 +x_0=0 +y_0=0 +ellps=WGS84 +units=m +no_defs"
+LAEA_CUSTOM = "+proj=laea +lat_0=-25 +lon_0=134 +x_0=0 +y_0=0 +ellps=WGS84 +units=m +no_defs"
+NOEPSG_TARGETS = [SINU_RESPELLED, AEA_CUSTOM, LAEA_CUSTOM, "EPSG:4326", "EPSG:3577"]
+
+
+def targets_of(src):
+    return TARGETS.get(str(src.crs), NOEPSG_TARGETS)
+
+
+def pyproj_same_crs(crs_obj, request) -> bool:
+    """independent reference for 'the same CRS': pyproj's own strict equality on freshly built objects"""
+    import pyproj
+
+    return pyproj.CRS.from_user_input(crs_obj.to_wkt()).equals(pyproj.CRS.from_user_input(request))
+
+
 def base_sources():
     """Small dyadic-friendly grids for the correspondence (north-up, south-up, 180-degree rotated)."""
     from affine import Affine
@@ -336,6 +358,9 @@ def base_sources():
     # south-up, non-square pixels; mirrored (both components negative)
     out.append(GeoBox(wh_(256, 128), Affine(16, 0, 600000, 0, 8, 5000000), "EPSG:32633"))
     out.append(GeoBox(wh_(128, 128), Affine(-32, 0, 600000 + 4096, 0, -32, 5000000), "EPSG:32633"))
+    # no EPSG code: MODIS-like sinusoidal tile over central Australia (targets: custom Albers / LAEA, own CRS respelled)
+    out.append(GeoBox(wh_(64, 64), Affine(512, 0, 12500000 + 0, 0, -512, -2500000), SINU))
+    out.append(GeoBox(wh_(96, 64), Affine(256, 0, 300000, 0, -256, -3200000), AEA_CUSTOM))
     return out
 
 
@@ -402,9 +427,8 @@ def observe_case(src, scn, reg, out, via_to_crs=False):
         dst_crs = fin["bbox"].crs
     else:
         Bf = (F(0), F(0), F(1), F(1))
-        dst_crs = res.crs if res is not None else None
-    if dst_crs is None:
-        # error before from_bbox was reached: the CRS the footprint box would carry
+        # from_bbox was not reached (short-circuit or error): the CRS the footprint box carries, observed on
+        # its own (NOT taken from the result: a wrongly short-circuited call returns the source CRS)
         dst_crs = src.footprint(scn["crs"], buffer=0.9, npoints=100).boundingbox.crs
     dst_id = reg.crs_id(dst_crs)
     du = reg.units_id(dst_crs.units)
@@ -498,16 +522,16 @@ def gen_out_cases(out, tier, reg):
     srcs = base_sources()
     # 1. decision table: resolution mode x CRS relation x shape kind (default anchor), every source
     for src in srcs:
-        for crs in TARGETS[str(src.crs)]:
+        for crs in targets_of(src):
             for rq in ["same", "auto", "fit", "bad", 32.0, [16.0, -8.0]]:
                 for shp in [None, 8, [4, 8]]:
-                    if tier == "quick" and src is not srcs[0] and rng.random() < 0.8:
+                    if tier == "quick" and src is not srcs[0] and rng.random() < (0.5 if src.crs.epsg is None else 0.8):
                         continue
                     add(src, scenario(crs, rq, shp))
     # 2. anchors x tight x shape kinds (resolution-driven with a dyadic resolution so the numbers are exact)
     n2 = 0
     for src in srcs:
-        crs_list = TARGETS[str(src.crs)]
+        crs_list = targets_of(src)
         for a, tight, shp in itertools.product(ANCHORS, [False, True], [None, 8, [4, 8]]):
             if tier == "quick" and rng.random() < 0.8:
                 continue
@@ -519,7 +543,7 @@ def gen_out_cases(out, tier, reg):
     n = 60 if tier == "quick" else 1200
     for _ in range(n):
         src = rng.choice(srcs)
-        crs = rng.choice(TARGETS[str(src.crs)])
+        crs = rng.choice(targets_of(src))
         rq = rng.choice(RES_REQS)
         rr = rng.choice(RRS)
         if rr is not None and rng.random() < 0.7:
@@ -528,7 +552,7 @@ def gen_out_cases(out, tier, reg):
             via=rng.random() < 0.2)
     # 4. malformed stream
     for src in srcs[:2] if tier == "quick" else srcs:
-        for crs in TARGETS[str(src.crs)][:3]:
+        for crs in targets_of(src)[:3]:
             for bad in BAD:
                 add(src, dict(scenario(crs, 32.0), **bad))
     return cases, infos
@@ -896,11 +920,14 @@ def check_scenario(src_s, scn, k_edge=400, k_in=9):
     if not is_utm:
         from odc.geo import CRS
 
-        same_crs = CRS(scn["crs"]) == src.crs
+        same_crs = pyproj_same_crs(src.crs, scn["crs"])
         if same_crs and defaults and dst is not src:
             fails.append(("identity", "same CRS and default options did not return the source object"))
         if dst is src:
-            if not (same_crs and defaults):
+            if not same_crs:
+                fails.append(("identity", f"source object (CRS {str(src.crs)[:60]}) returned although the requested CRS "
+                                          f"{scn['crs']} is a different one (pyproj equality): result is not in the requested CRS"))
+            elif not defaults:
                 fails.append(("identity", "source object returned for a non-default request"))
             return fails, facts
     elif dst is src:
@@ -912,8 +939,8 @@ def check_scenario(src_s, scn, k_edge=400, k_in=9):
     if not is_utm:
         from odc.geo import CRS
 
-        if dst.crs != CRS(scn["crs"]):
-            fails.append(("crs", f"result CRS {dst.crs} is not the requested {scn['crs']}"))
+        if not pyproj_same_crs(dst.crs, scn["crs"]):
+            fails.append(("crs", f"result CRS {str(dst.crs)[:80]} is not the requested {scn['crs']} (pyproj equality)"))
     L, Bm, R, T, ax, ay = bounds_of(dst)
     tol = F(scn["tol"])
     # --- enclosure of projected source pixels (resolution-driven and single-number shape)
@@ -1056,6 +1083,21 @@ def search_sources(tier):
     add("continent-au-4326", GeoBox.from_bbox([110, -45, 155, -10], "EPSG:4326", resolution=0.001),
         ["EPSG:3577", "EPSG:3857", "EPSG:6933"])
     add("world-4326", GeoBox.from_bbox([-179, -80, 179, 80], "EPSG:4326", resolution=0.05), ["EPSG:3857", "EPSG:6933"])
+    # long thin strips of continental length, both orientations: the long edge curves in the target, the short side
+    # says nothing about how densely the footprint has to be sampled
+    add("continent-strip-ew-4326", GeoBox(wh_(800000, 300), Affine(0.00005, 0, 112.2, 0, -0.00005, -20.0), "EPSG:4326"),
+        ["EPSG:3577", AEA_CUSTOM])
+    add("continent-strip-ns-4326", GeoBox(wh_(300, 600000), Affine(0.00005, 0, 147.3, 0, -0.00005, -12.0), "EPSG:4326"),
+        [LAEA_CUSTOM, "EPSG:3577"])
+    add("continent-strip-ew-albers", GeoBox(wh_(400000, 256), Affine(10, 0, -1900000, 0, -10, -1500000), "EPSG:3577"),
+        ["EPSG:4326", "EPSG:3857"])
+    add("continent-strip-ns-albers", GeoBox(wh_(256, 380000), Affine(10, 0, 1500000, 0, -10, -1100000), "EPSG:3577"),
+        ["EPSG:4326", "EPSG:6933"])
+    # no EPSG code on source or target
+    add("modis-sinu", GeoBox(wh_(1200, 1200), Affine(463.3127165, 0, 12500000.0, 0, -463.3127165, -2500000.0), SINU),
+        [AEA_CUSTOM, SINU_RESPELLED, LAEA_CUSTOM, "EPSG:4326", "EPSG:3577"])
+    add("custom-albers", GeoBox(wh_(500, 400), Affine(100, 0, 300000, 0, -100, -3200000), AEA_CUSTOM),
+        [SINU, LAEA_CUSTOM, AEA_CUSTOM, "EPSG:3577"])
     # rotated / south-up / mirrored
     for deg in (30, 90, 180, 217):
         A = Affine.translation(500000, 6000000) * rot(deg) * Affine.scale(10, -10)
@@ -1112,6 +1154,24 @@ def rounds_to_zero(src_s, scn):
     return val == 0
 
 
+def extra_scenarios():
+    """(label, src_spec, scenario): requests built so that one clause decides by a margin far above float noise.
+    tol: the output pixel is 1000 source pixels and the footprint box starts 0.0049 output pixel below a grid
+    line; with the stated tol=0 (or 0.001) that line must not be snapped to (4 source pixel columns would be cut)."""
+    from affine import Affine
+    from odc.geo import wh_
+    from odc.geo.geobox import GeoBox
+
+    out = []
+    g = GeoBox(wh_(300, 200), Affine(10, 0, 499960, 0, -10, 6000040), "EPSG:32633")
+    for tol in (0.0, 0.001):
+        for a in (["str", "default"], ["enum", "EDGE"]):
+            out.append(("tol-edge", src_spec(g), scenario("EPSG:32633", 10000.0, tol=tol, anchor=a)))
+    g2 = GeoBox(wh_(300, 200), Affine(10, 0, 497040, 0, -10, 6002960), "EPSG:32633")    # far edges just above a grid line
+    out.append(("tol-edge", src_spec(g2), scenario("EPSG:32633", 10000.0, tol=0.0)))
+    return out
+
+
 def search(out, tier):
     rng = core.rng("c11-search")
     found = {}
@@ -1145,6 +1205,8 @@ def search(out, tier):
 
     for rp in core.corpus(ID):
         run("corpus:" + rp.get("_file", ""), rp["src"], rp["scn"], k_edge=2000)
+    for label, src_s, scn in extra_scenarios():
+        run(label, src_s, scn)
     srcs = search_sources(tier)
     nreq = 6 if tier == "quick" else 40
     for label, src_s, targets in srcs:
